@@ -20,6 +20,12 @@ static bool g_throw = false;
 struct TE { unsigned char v; TE() : v(0) {} TE(int x) : v((unsigned char)x) { if (g_throw) throw 1; } TE(const TE &o) : v(o.v) { if (g_throw) throw 1; }
     TE &operator=(const TE &o) { v = o.v; return *this; } operator unsigned char() const { return v; } };
 static std::unique_ptr<igris::ring<TE>> XT;
+// an element type that also has an initializer_list constructor (kind "xl"): emplace(count, value) must reach the (count, value)
+// constructor, as for std::vector / std::string elements; an element built through the list constructor reads back as 255 - value
+#include <initializer_list>
+struct LE { int n; unsigned char c; LE() : n(1), c(0) {} explicit LE(unsigned char ch) : n(1), c(ch) {} LE(int cnt, int ch) : n(cnt), c((unsigned char)ch) {} LE(std::initializer_list<int> l) : n(-(int)l.size()), c(l.size() ? (unsigned char)*(l.end() - 1) : 0) {}
+    operator unsigned char() const { return n == 1 ? c : (unsigned char)(255 - c); } };
+static std::unique_ptr<igris::ring<LE>> XL;
 static std::string kind;
 
 template <class R> static void obs_x(Ev &e, R &x) {
@@ -31,17 +37,17 @@ static void obs(Ev &e) {
         e.i("avail", ring_avail(&C.r)).i("room", ring_room(&C.r)).i("empty", ring_empty(&C.r)).i("full", ring_full(&C.r))
          .i("head", C.r.head).i("tail", C.r.tail).i("size", C.r.size)
          .bytes("gl", C.blk, G).bytes("gr", C.blk + G + C.size, G).bytes("mem", C.blk + G, C.size);
-    } else if (kind == "xc") obs_x(e, *XC); else if (kind == "xt") obs_x(e, *XT); else obs_x(e, *XI);
+    } else if (kind == "xc") obs_x(e, *XC); else if (kind == "xt") obs_x(e, *XT); else if (kind == "xl") obs_x(e, *XL); else obs_x(e, *XI);
 }
 
 template <class R, class T> static void xop(R &x, const std::vector<std::string> &t) {
     const std::string &op = t[0];
-    if (op == "Putc") { int ret = 0; if (x.room() > 0) { x.push((T)(unsigned char)num(t[1])); ret = 1; } Ev e("Putc"); e.i("b", num(t[1])).i("ret", ret); obs(e); e.end(); }
+    if (op == "Putc") { int ret = 0; if (x.room() > 0) { if constexpr (std::is_same<T, LE>::value) x.emplace(1, (int)(unsigned char)num(t[1])); else x.push((T)(unsigned char)num(t[1])); ret = 1; } Ev e("Putc"); e.i("b", num(t[1])).i("ret", ret); obs(e); e.end(); }
     else if (op == "Getc") { int ret = -1; if (!x.empty()) { ret = (unsigned char)x.tail(); x.pop(); } Ev e("Getc"); e.i("ret", ret); obs(e); e.end(); }
     else if (op == "Write" || op == "MoveHead") {
         auto d = blist(t[1]); int n = 0;
         if (op == "MoveHead") { for (auto b : d) { x.head_place() = (T)b; x.move_head_one(); ++n; } }
-        else for (auto b : d) { if (x.room() == 0) break; x.emplace((T)b); ++n; }
+        else for (auto b : d) { if (x.room() == 0) break; if constexpr (std::is_same<T, LE>::value) x.emplace(1, (int)b); else x.emplace((T)b); ++n; }
         Ev e(op.c_str()); e.bytes("s", d.data(), d.size()).i("ret", n); obs(e); e.end(); }
     else if (op == "Read" || op == "MoveTail") {
         long k = num(t[1]); std::vector<unsigned char> got;
@@ -106,9 +112,9 @@ int main(int argc, char **argv) {
     return run(argc, argv, [&](const std::vector<std::string> &t) {
         if (t[0] == "R") {
             kind = t[1]; unsigned s = num(t[2]);
-            if (kind == "c") C.reset(s); else if (kind == "xc") XC.reset(new igris::ring<char>(s - 1)); else if (kind == "xt") XT.reset(new igris::ring<TE>(s - 1)); else XI.reset(new igris::ring<int>(s - 1));
+            if (kind == "c") C.reset(s); else if (kind == "xc") XC.reset(new igris::ring<char>(s - 1)); else if (kind == "xt") XT.reset(new igris::ring<TE>(s - 1)); else if (kind == "xl") XL.reset(new igris::ring<LE>(s - 1)); else XI.reset(new igris::ring<int>(s - 1));
             Ev e("Reset"); e.str("kind", kind.c_str()).i("req", (long)s); obs(e); e.end(); return;
         }
-        if (kind == "c") cop(t); else if (kind == "xc") xop<igris::ring<char>, char>(*XC, t); else if (kind == "xt") xop<igris::ring<TE>, TE>(*XT, t); else xop<igris::ring<int>, int>(*XI, t);
+        if (kind == "c") cop(t); else if (kind == "xc") xop<igris::ring<char>, char>(*XC, t); else if (kind == "xt") xop<igris::ring<TE>, TE>(*XT, t); else if (kind == "xl") xop<igris::ring<LE>, LE>(*XL, t); else xop<igris::ring<int>, int>(*XI, t);
     });
 }
